@@ -397,3 +397,94 @@ def templates():
                   blk("blk_1", [store(ids, V("RSI"), V("RAX")), assign(ids, var("RCX"), V("RDX"))], [jmp(ids, "return", target=V("RSI"))])]
         progs.append(("call", project(blocks, [callee_sub(ids)])))
     return progs
+
+
+# ------------------------------------------------------------------ functions for the pointer-inference validation (C13)
+
+PI_REGS = ["RAX", "RBX", "RCX", "RDX", "RSI", "RDI"]
+
+
+def random_pi_project(rng):
+    """Single function: register arithmetic, comparisons, stack loads/stores at constant offsets, branches, loops."""
+    ids = Ids()
+    n = rng.randrange(2, 7)
+    tids = ["blk_%d" % i for i in range(n)]
+    frame = rng.choice([0, 0x10, 0x20, 0x28])
+    use_rbp = rng.random() < 0.4
+    small = lambda: C(rng.choice([0, 1, 2, 3, 4, 5, 7, 8, 10, 16, 100, 0xFF, 0xFFFFFFFFFFFFFFFF, 0xFFFFFFFFFFFFFFF8, 0x7FFFFFFFFFFFFFFF, 0x8000000000000000, rng.randrange(0, 64)]))  # noqa: E731
+
+    def stack_addr():
+        base = "RBP" if (use_rbp and rng.random() < 0.5) else "RSP"
+        off = rng.choice([0, 8, 16, 24, -8, -16, 0x30])
+        if off == 0:
+            return V(base)
+        return B("IntAdd" if off > 0 else "IntSub", V(base), C(abs(off)))
+
+    def rand_def():
+        r = rng.random()
+        dst = var(rng.choice(PI_REGS))
+        if r < 0.18:
+            return assign(ids, dst, small())
+        if r < 0.42:
+            return assign(ids, dst, B(rng.choice(["IntAdd", "IntSub", "IntAdd", "IntMult", "IntAnd", "IntOr", "IntXOr", "IntLeft", "IntRight"]), V(rng.choice(PI_REGS)), small()))
+        if r < 0.52:
+            return assign(ids, dst, B(rng.choice(["IntAdd", "IntSub", "IntMult"]), V(rng.choice(PI_REGS)), V(rng.choice(PI_REGS))))
+        if r < 0.58:
+            return assign(ids, dst, rng.choice([U("Int2Comp", V(rng.choice(PI_REGS))), U("IntNegate", V(rng.choice(PI_REGS))), V(rng.choice(PI_REGS)),
+                                               CAST("IntZExt", 8, SUBP(0, 4, V(rng.choice(PI_REGS)))), CAST("IntSExt", 8, SUBP(0, 4, V(rng.choice(PI_REGS)))),
+                                               CAST("IntZExt", 8, SUBP(0, 1, V(rng.choice(PI_REGS))))]))
+        if r < 0.7:
+            return assign(ids, var(rng.choice(["ZF", "CF", "SF"]), 1), cmp_expr())
+        if r < 0.83:
+            return store(ids, stack_addr(), rng.choice([V(rng.choice(PI_REGS)), small()]))
+        if r < 0.96:
+            return load(ids, dst, stack_addr())
+        # access through an absolute address around the NULL page boundary (the analysis treats (-1024, 1024) as NULL dereferences)
+        a = C(rng.choice([-1024, -1023, -1025, 1023, 1024, 0, 8, 2048, -2048]))
+        # (only constant addresses: an access through a parameter pointer may alias the function's own stack frame,
+        #  which the analysis excludes by assumption)
+        return load(ids, dst, a) if rng.random() < 0.6 else store(ids, a, V(rng.choice(PI_REGS)))
+
+    def cmp_expr():
+        op = rng.choice(["IntEqual", "IntNotEqual", "IntLess", "IntSLess", "IntLessEqual", "IntSLessEqual"])
+        a, b = V(rng.choice(PI_REGS)), small()
+        if rng.random() < 0.3:
+            a, b = b, a
+        if rng.random() < 0.15:
+            b = V(rng.choice(PI_REGS))
+        e = B(op, a, b)
+        return U("BoolNegate", e) if rng.random() < 0.15 else e
+
+    blocks = []
+    for i, t in enumerate(tids):
+        defs = []
+        if i == 0:
+            if frame:
+                defs.append(assign(ids, var("RSP"), B("IntSub", V("RSP"), C(frame))))
+            if use_rbp:
+                defs.append(assign(ids, var("RBP"), V("RSP")))
+            # typical loop counter initialisation
+            if rng.random() < 0.7:
+                defs.append(assign(ids, var(rng.choice(PI_REGS)), C(rng.choice([0, 1, 10]))))
+        defs += [rand_def() for _ in range(rng.randrange(0, 5))]
+        if i == n - 1:
+            if frame:
+                defs.append(assign(ids, var("RSP"), B("IntAdd", V("RSP"), C(frame))))
+            jm = [jmp(ids, "return", target=V("RDX"))]
+        else:
+            r = rng.random()
+            fwd = rng.choice(tids[i + 1:])
+            anyt = rng.choice(tids[max(0, i - 2):]) if rng.random() < 0.45 else fwd
+            if r < 0.65:
+                cond = V(rng.choice(["ZF", "CF", "SF"]), 1) if (rng.random() < 0.4 and any(d["k"] == "assign" and d["var"]["size"] == 1 for d in defs)) else cmp_expr()
+                if cond["k"] == "var":
+                    # make sure the flag is defined in this block (as lifted code does)
+                    fl = [d for d in defs if d["k"] == "assign" and d["var"]["size"] == 1]
+                    cond = V(fl[-1]["var"]["name"], 1)
+                jm = [jmp(ids, "cbranch", target=anyt, cond=cond), jmp(ids, "branch", target=fwd)]
+            else:
+                jm = [jmp(ids, "branch", target=fwd)]
+        blocks.append(blk(t, defs, jm))
+    p = project(blocks, [])
+    p["externs"] = []
+    return p
